@@ -89,7 +89,11 @@ GhostInit ==
     closed   |-> {},
     bootDone |-> FALSE, booted |-> FALSE,
     lastSpawn|-> [w |-> "", t |-> -1, prio |-> 0, first |-> -1],
-    sigTargets |-> {},         \* pids signalled while handling the current signal/kill request
+    sigTargets |-> {},
+    lastStatus |-> <<>>,       \* pid -> result of the last status() read ("" none)
+    pruned   |-> {},           \* pids dropped from tracking right after a dead status read, never reaped (D4)
+    detached |-> {},           \* pids forgotten after a failing after_spawn hook (D3)
+    dsigBusy |-> FALSE,        \* a termination signal arrived while an exclusive operation held the slot (D6)         \* pids signalled while handling the current signal/kill request
     stepBad  |-> {} ]
 
 ---------------------------------------------------------------------------
@@ -138,8 +142,8 @@ CleanForPass(o) ==
 StopFlips(o, o2) == { p \in AllTracked(o2) :
                         \E i \in WIdx(o2) : p \in Stopping(o2.w[i]) /\
                            ~(\E j \in WIdx(o) : p \in Stopping(o.w[j])) }
-StopEnds(o, o2)  == { p \in AllTracked(o) :
-                        (\E j \in WIdx(o) : p \in Stopping(o.w[j])) /\
+StopEnds(o, o2)  == { p \in AllTracked(o) \cap AllTracked(o2) :      \* (a pid that is forgotten while its kill
+                        (\E j \in WIdx(o) : p \in Stopping(o.w[j])) /\     \*  is in flight keeps its termination open)
                            ~(\E i \in WIdx(o2) : p \in Stopping(o2.w[i])) }
 WOfPid(o, p) == o.w[CHOOSE i \in WIdx(o) : p \in Pids(o.w[i])]
 ChildrenOf(o, p) == { c \in 1..NK(o) : KPar(o, c) = p /\ KSt(o, c) = "run" }
@@ -219,7 +223,7 @@ Upd(g, o, ln, o2) ==
       g1 == [g EXCEPT
                !.cfg = IF ln.k = "init" THEN ln.cfg ELSE @,
                !.t = ln.t,
-               !.passes = IF stim THEN 0 ELSE IF PassEnd(o, o2) THEN @ + 1 ELSE @,
+               !.passes = IF stim THEN 0 ELSE IF PassEnd(o, o2) /\ @ < 3 THEN @ + 1 ELSE @,     \* (saturates)
                !.inPass = o2.slot = "manage_watchers",
                !.passClean = IF PassStart(o, o2) THEN CleanForPass(o) /\ ~stim
                              ELSE IF stim \/ (ln.k = "req" /\ ln.q.cmd \in {"kill", "signal"}) THEN FALSE ELSE @,
@@ -259,6 +263,14 @@ Upd(g, o, ln, o2) ==
                              THEN [w |-> ln.x, t |-> ln.t, prio |-> CfgW(g, ln.x).prio,
                                    first |-> IF @.w = ln.x THEN @.first ELSE ln.t]
                              ELSE IF acq THEN [w |-> "", t |-> -1, prio |-> 0, first |-> -1] ELSE @,
+               !.lastStatus = LET t == Grow(g.lastStatus, n2, "") IN
+                              IF ln.k = "status" THEN [t EXCEPT ![ln.p] = ln.r] ELSE t,
+               !.pruned = LET left == { p \in AllTracked(o) : p \notin AllTracked(o2) /\ p \notin g.reaped
+                                          /\ p \in 1..Len(g.lastStatus) /\ g.lastStatus[p] \in {"zombie", "gone"} }
+                          IN (@ \cup left) \ (IF isEv /\ ln.x = "reap" THEN {ln.p} ELSE {}),
+               !.detached = IF ln.k = "hook" /\ ln.x = "after_spawn" /\ ~Effective(g, ln.w, "after_spawn", ln.r)
+                            THEN @ \cup {ln.p} ELSE @,
+               !.dsigBusy = @ \/ (ln.k = "dsig" /\ ln.a \in {15, 2, 3} /\ o2.slot # ""),
                !.sigTargets = IF isReq THEN {} ELSE IF ln.k \in SigKinds THEN @ \cup {ln.p} ELSE @ ]
   IN g1
 
@@ -491,6 +503,47 @@ Clauses(g, o, ln, o2, g2) ==
     C18_confine |-> C18_confine(g, o, ln),
     C19_order |-> C19_order(g, o, ln), C19_pace |-> C19_pace(g, o, ln), C19_auto |-> C19_auto(g, o, ln, o2) ]
 
+---------------------------------------------------------------------------
+\* Known findings (DESIGN.md 6/7).  A violated clause is attributed to a recorded defect only if the violation
+\* has that defect's signature: the clause, re-evaluated with exactly the effect of the deviation discounted,
+\* holds.  Anything else stays an unexplained violation.  Returns the finding id or "".
+KF(c, g, o, ln, o2, g2) ==
+  CASE c = "C09_live" ->
+         IF /\ (((g2.spawned \ (g2.reaped \cup g2.killed)) \ g2.released) \ g2.pruned)
+                   = { p \in AllTracked(o2) : KSt(o2, p) = "run" }
+            /\ \A p \in g2.envDied : p \notin AllTracked(o2) => p \in (g2.reaped \cup g2.pruned)
+         THEN "D4" ELSE ""
+    [] c = "C02_complete" ->
+         LET off == UNION { { p \in OwnedBy(g2, o2, o2.w[i].ln) : KSt(o2, p) # "reaped" } : i \in BecameStopped(o, o2) } IN
+         IF (\A i \in BecameStopped(o, o2) : o2.w[i].pr = <<>>) /\ off # {}
+         THEN (IF \A p \in off : p \in g2.pruned /\ KSt(o2, p) = "zombie" THEN "D4"
+               ELSE IF \A p \in off : p \in g2.detached \/ (p \in g2.pruned /\ KSt(o2, p) = "zombie") THEN "D3" ELSE "")
+         ELSE ""
+    [] c = "C04_owned" ->
+         LET off == { p \in 1..NK(o2) : \/ (KSt(o2, p) = "run" /\ KPar(o2, p) = 0 /\ p \notin g2.released
+                                               /\ Cardinality({ i \in WIdx(o2) : p \in Pids(o2.w[i]) }) # 1)
+                                          \/ KSt(o2, p) = "zombie"
+                                          \/ (KSt(o2, p) = "reaped" /\ p \in AllTracked(o2)) } IN
+         IF off # {} /\ \A p \in off : (KSt(o2, p) = "zombie" /\ p \in g2.pruned)
+         THEN "D4"
+         ELSE IF off # {} /\ \A p \in off : (KSt(o2, p) = "zombie" /\ p \in g2.pruned)
+                                           \/ (KSt(o2, p) = "run" /\ p \in g2.detached /\ p \notin AllTracked(o2))
+         THEN "D3" ELSE ""
+    [] c = "C14_startgate" ->
+         IF \A lname \in g.op.gatefail : \A i \in WIdx(o2) : o2.w[i].ln = lname =>
+               /\ o2.w[i].st = "stopped"
+               /\ \A p \in OwnedBy(g, o2, lname) : KSt(o2, p) = "run" => p \in g2.detached
+         THEN "D3" ELSE ""
+    [] c = "C05_noblock" ->
+         IF ln.p \in 1..Len(g.term) /\ g.term[ln.p].open THEN "D1"
+         ELSE IF g.op.cmd = "start" /\ g.op.slot \in {"watcher_start", "arbiter_start_watchers"} THEN "D2"
+         ELSE ""
+    [] c = "C06_status" -> IF g.ctx.on /\ g.ctx.cmd = "status" /\ g.ctx.hasname THEN "STATUS" ELSE ""
+    [] c = "C08_done" -> IF g2.dsigBusy THEN "D6" ELSE ""
+    [] OTHER -> ""
+
 \* the set of clause names violated by this step
 Bad(g, o, ln, o2, g2) == LET c == Clauses(g, o, ln, o2, g2) IN { n \in DOMAIN c : ~c[n] }
+\* ... each with the known finding that explains it ("" = unexplained)
+BadKF(g, o, ln, o2, g2) == { <<n, KF(n, g, o, ln, o2, g2)>> : n \in Bad(g, o, ln, o2, g2) }
 =============================================================================
